@@ -526,6 +526,34 @@ fn emit_tag(
     Ok(())
 }
 
+/// Emits plain choice text, turning `<>` into a glue token: in choice text the glue is
+/// not part of the words shown to the player (`* I cheered. <>` is offered as `I cheered.`).
+fn emit_choice_plain_text(text: &str, out: &mut Vec<Value>) {
+    for (index, piece) in text.split("<>").enumerate() {
+        if index > 0 {
+            out.push(json!("<>"));
+        }
+        if !piece.is_empty() {
+            out.push(json!(format!("^{piece}")));
+        }
+    }
+}
+
+fn emit_choice_text_parts(
+    parts: &[DynamicStringPart],
+    out: &mut Vec<Value>,
+    scope: &EmitScope,
+    context: &EmitContext,
+) -> Result<(), CompilerError> {
+    for part in parts {
+        match part {
+            DynamicStringPart::Text(text) => emit_choice_plain_text(text, out),
+            other => emit_dynamic_string_parts(std::slice::from_ref(other), out, scope, context)?,
+        }
+    }
+    Ok(())
+}
+
 fn emit_choice_text_segment(
     text: &str,
     tags: &[DynamicString],
@@ -548,9 +576,9 @@ fn emit_choice_text_segment(
             .iter()
             .any(|p| !matches!(p, DynamicStringPart::Text(_)));
         if has_inline {
-            emit_dynamic_string_parts(&dynamic.parts, out, scope, context)?;
+            emit_choice_text_parts(&dynamic.parts, out, scope, context)?;
         } else {
-            out.push(json!(format!("^{text}")));
+            emit_choice_plain_text(text, out);
         }
     }
     for tag in tags {
@@ -580,9 +608,9 @@ fn emit_choice_text_content(
             .iter()
             .any(|p| !matches!(p, DynamicStringPart::Text(_)));
         if has_inline {
-            emit_dynamic_string_parts(&dynamic.parts, out, scope, context)?;
+            emit_choice_text_parts(&dynamic.parts, out, scope, context)?;
         } else {
-            out.push(json!(format!("^{text}")));
+            emit_choice_plain_text(text, out);
         }
     }
     for tag in tags {
